@@ -564,7 +564,8 @@ example : (∀ x, toyTransc.pow x 2 = x * x) ∧
 
 /-- **C05** slab / fault `linear`: the line between the two distances, sentinels as adiabats evaluated at those distances -/
 theorem C05_line_linear (T : Transc F) (mn mx : F) (op : Op) (top bottom : F) (isFault : Bool) (ctx : Ctx F) (depth g : F) (pd : PlaneDist F) (old : F)
-    (h : @lineDist F (fieldScalar T) isFault pd.distanceFromPlane ≤ mx ∧ mn ≤ @lineDist F (fieldScalar T) isFault pd.distanceFromPlane) :
+    (h : @lineDist F (fieldScalar T) isFault pd.distanceFromPlane ≤ mx ∧ mn ≤ @lineDist F (fieldScalar T) isFault pd.distanceFromPlane)
+    (hw : ¬ (mx - mn < 10 * T.eps)) :
     @LineTemp.get F (fieldScalar T) (.linear mn mx op top bottom) isFault ctx depth g pd old =
       @applyOp F (fieldScalar T) op old
         (@Spec.lineLinear F (fieldScalar T) top bottom ctx.potentialT ctx.alpha g ctx.cp mn mx (@lineDist F (fieldScalar T) isFault pd.distanceFromPlane)) := by
@@ -576,6 +577,25 @@ theorem C05_line_linear (T : Transc F) (mn mx : F) (op : Op) (top bottom : F) (i
   unfold Spec.lineLinear Spec.linearBetween Spec.orAdiabatic
   simp only [adiabat_eq_spec]
   sfield
+  rw [if_neg hw]
+  ring
+
+/-- **C05** slab / fault `linear` on a degenerate range (`max − min < 10 ε`, in particular `min = max`): the top (centre) temperature, as the area
+copies return it (the unguarded `0 * (x / 0)` was NaN in the code until the `fix:` commit recorded in KNOWN_FINDINGS) -/
+theorem C05_line_linear_degenerate (T : Transc F) (mn mx : F) (op : Op) (top bottom : F) (isFault : Bool) (ctx : Ctx F) (depth g : F) (pd : PlaneDist F) (old : F)
+    (h : @lineDist F (fieldScalar T) isFault pd.distanceFromPlane ≤ mx ∧ mn ≤ @lineDist F (fieldScalar T) isFault pd.distanceFromPlane)
+    (hw : mx - mn < 10 * T.eps) :
+    @LineTemp.get F (fieldScalar T) (.linear mn mx op top bottom) isFault ctx depth g pd old =
+      @applyOp F (fieldScalar T) op old (@Spec.orAdiabatic F (fieldScalar T) top ctx.potentialT ctx.alpha g ctx.cp mn) := by
+  simp only [LineTemp.get]
+  have h' : @LE.le F (fieldScalar T).toLE (@lineDist F (fieldScalar T) isFault pd.distanceFromPlane) mx ∧
+      @GE.ge F (fieldScalar T).toLE (@lineDist F (fieldScalar T) isFault pd.distanceFromPlane) mn := h
+  rw [if_pos h']
+  congr 1
+  unfold Spec.orAdiabatic
+  simp only [adiabat_eq_spec]
+  sfield
+  rw [if_pos hw]
   ring
 
 /-- **C05** slab / fault `adiabatic`: `Tp·exp(α·g·depth/cp)` -/
